@@ -18,8 +18,10 @@ import XlModel.Lemmas.SaveCols3
 import XlModel.Lemmas.SaveCols4
 import XlModel.Lemmas.SaveBook
 import XlModel.Lemmas.SaveMerge
+import XlModel.Lemmas.SaveSst
 import XlModel.Lemmas.SaveBook2
 import XlModel.Lemmas.SaveBook3
+import XlModel.Lemmas.SaveBook4
 import XlModel.Lemmas.SaveCols
 import XlModel.Generated.FactsC01
 
@@ -359,6 +361,41 @@ theorem finding_overlapping_merges_normalised_at_save :
     SaveMerge.anchorOf [⟨2, 1, 3, 7⟩, ⟨2, 5, 5, 5⟩] 5 1 = (5, 1) ∧
     SaveMerge.anchorOf (SaveMerge.normalize [⟨2, 1, 3, 7⟩, ⟨2, 5, 5, 5⟩]) 5 1 = (2, 1) := by decide
 
+/-! ## `inv_step`: `SetCellStr`'s shared-string bookkeeping (table vs index map) -/
+
+/-- **inv_step (SetCellStr bookkeeping)**: if every binding of the index map points at an item with that
+text (`MapOk`; true for a new file and for the map built at open, `sst_map_ok_at_open`), then after
+`setCellString s` it still does, the index written into the cell holds an item that reads back as `s`
+truncated to the cell limit, no earlier item of the table changed (so no previously written cell changes
+its value), and the table stays XML-legal. -/
+theorem inv_step_setcellstr (st : SaveSst.State) (s : List Char) (h : SaveSst.MapOk st)
+    (hl : ∀ t ∈ st.sst, SaveBook.LegalS t) :
+    SaveSst.MapOk (SaveSst.setCellString st s).1 ∧
+    (∃ t, (SaveSst.setCellString st s).1.sst[(SaveSst.setCellString st s).2]? = some t ∧ siString t = spec s) ∧
+    (∀ j, j < st.sst.length → (SaveSst.setCellString st s).1.sst[j]? = st.sst[j]?) ∧
+    (∀ t ∈ (SaveSst.setCellString st s).1.sst, SaveBook.LegalS t) := by
+  have h1 : Facts.C01.sharedStringStoresEscaped = true := rfl
+  have hst : (trimCellValue (truncate s)).1 = storedText s := by
+    simp only [storedText, h1, if_true]
+  obtain ⟨a, b, c⟩ := SaveSst.setShared_spec st (truncate s) h
+  refine ⟨a, ⟨_, b, ?_⟩, c, ?_⟩
+  · rw [hst]; exact setstr_getstr s
+  · intro t ht
+    unfold SaveSst.setCellString SaveSst.setShared at ht
+    simp only at ht
+    cases hlk : SaveSst.lookup st.map (trimCellValue (truncate s)).1 with
+    | some i => simp only [hlk] at ht; exact hl t ht
+    | none =>
+      simp only [hlk, List.mem_append, List.mem_singleton] at ht
+      rcases ht with ht | rfl
+      · exact hl t ht
+      · rw [hst]; exact stored_xml_legal s
+
+/-- the invariant holds for a new workbook and for the map `sharedStringsReader` builds at open -/
+theorem sst_map_ok_at_open (sst : List (List Char)) :
+    SaveSst.MapOk ⟨[], []⟩ ∧ SaveSst.MapOk (SaveSst.opened sst) :=
+  ⟨SaveSst.mapOk_empty, SaveSst.mapOk_opened sst⟩
+
 /-! ## `inv_step`: the invariant holds on states reached by cell writes -/
 
 /-- **inv_step (cell writes)**: on a worksheet satisfying the invariant, writing through `prepareSheetXML` +
@@ -401,6 +438,18 @@ theorem inv_step_row_attr (rows : List Row) (h : Dense rows) (i : Nat) (hi : i <
     Dense (SaveBook.writeRowAttr rows i f) ∧
       ∀ a b, Grid.abs (SaveBook.writeRowAttr rows i f) a b = Grid.abs rows a b :=
   ⟨SaveBook.writeRowAttr_dense rows i f h hi, SaveBook.writeRowAttr_abs rows i f⟩
+
+/-- **inv_step (SetCellStyle over a rectangle)**: on a dense worksheet whose cells satisfy the cell
+invariant (a cell with an inline string also has a type, a value or a formula), styling any rectangle
+inside the grid keeps the worksheet dense, keeps the cell invariant, and changes nothing but style ids:
+the payload without the style id is the same at every position. (`SetColStyle` and `SetRowStyle` style
+existing cells through the same path; their `<cols>` part is covered by `inv_step_cols`.) -/
+theorem inv_step_cell_style (rows : List Row) (h : Dense rows) (hg : SaveBook.GridInv rows)
+    (i1 j1 i2 j2 st : Nat) (hi : i2 < Facts.TotalRows) (hj : j2 < Facts.MaxColumns) :
+    Dense (SaveBook.styleRect rows i1 j1 i2 j2 st) ∧ SaveBook.GridInv (SaveBook.styleRect rows i1 j1 i2 j2 st) ∧
+    ∀ a b, SaveBook.eraseS (Grid.abs (SaveBook.styleRect rows i1 j1 i2 j2 st) a b) =
+      SaveBook.eraseS (Grid.abs rows a b) :=
+  SaveBook.style_fold _ rows st h hg (SaveBook.positions_bound i1 j1 i2 j2 hi hj)
 
 /-- the modelled setters meet the conditions of `inv_step_write` -/
 theorem setInt_setBool_ok (n : Int) (b : Bool) :
